@@ -112,3 +112,5 @@ u32 vpx___isoc99_sscanf(void* strv, void* fmtv, ...) {
   va_end(ap);
   return n;
 }
+/* strtod: not modelled as a text parser (harnesses that exercise it replace it by a contract stub); reaching this is reported */
+double vpx_strtod(void* s, void* end) { (void)s; (void)end; VP_CHK("unmodelled:strtod-text-parser-reached", 0); __CPROVER_assume(0); return 0.0; }
